@@ -52,3 +52,16 @@ func WorkNow() int64 {
 	}
 	return n
 }
+
+// WorkIn returns the ticks counted in packages whose directory starts with the
+// given prefix (relative to the repository root).
+func WorkIn(prefix string) int64 {
+	workOnce.Do(workInit)
+	var n int64
+	for i, f := range workCounters {
+		if strings.HasPrefix(workNames[i], prefix) {
+			n += f.Value().(int64)
+		}
+	}
+	return n
+}
